@@ -483,4 +483,65 @@ Section Dataflow.
 
   Theorem canonical_valid : valid f sc (canonical f sc) = true.
   Proof. apply canon_valid. Qed.
+
+  (* ---- order of the log: a job's dependencies are logged before it, all with result nil *)
+  Lemma log_entry_unique e x ef1 ef2 : Good e -> In (x, ef1) (xlog e) -> In (x, ef2) (xlog e) -> ef1 = ef2.
+  Proof.
+    intros G H1 H2. rewrite <- (g_stable e G _ _ H1), <- (g_stable e G _ _ H2). reflexivity.
+  Qed.
+
+  Lemma snoc_split {A} (l l1 l2 : list A) (a b : A) : l ++ [a] = l1 ++ b :: l2 ->
+    (l2 = [] /\ l = l1 /\ a = b) \/ (exists l2', l2 = l2' ++ [a] /\ l = l1 ++ b :: l2').
+  Proof.
+    revert l. induction l1 as [|c l1 IH]; intros l H.
+    - destruct l as [|d l]; cbn in H.
+      + injection H as <- <-. left. auto.
+      + injection H as <- H. right. exists l. auto.
+    - destruct l as [|d l]; cbn in H.
+      + injection H as _ H. destruct l1; discriminate.
+      + injection H as <- H. destruct (IH l H) as [(-> & -> & ->)|[l2' [-> ->]]]; [left; auto | right; eauto].
+  Qed.
+
+  Theorem deps_logged_before e : reach e -> forall l1 x ef l2, xlog e = l1 ++ (x, ef) :: l2 ->
+    forall d, In d (jdeps f x) -> exists efd, In (d, efd) l1 /\ je_res efd = JOk.
+  Proof.
+    induction 1 as [|e x0 R IH Hm]; intros l1 x ef l2 Hl d Hd.
+    - destruct l1; discriminate.
+    - unfold FlowOpModel.step in Hl. cbn [xlog] in Hl.
+      destruct (snoc_split _ _ _ _ _ Hl) as [(-> & <- & Heq)|[l2' [-> Hl']]].
+      + injection Heq as <- _. destruct (may_run_spec e x0 Hm) as [_ [_ Hdeps]].
+        apply (g_ok e (reach_good e R)). now apply Hdeps.
+      + eapply IH; eauto.
+  Qed.
+
+  (* a job that failed, or never ran, starves everything that depends on it *)
+  Theorem failed_dep_starves e x d : reach e -> In d (jdeps f x) ->
+    (~ In d (ran e) \/ exists efd er, In (d, efd) (xlog e) /\ je_res efd = JFail er) -> ~ In x (ran e).
+  Proof.
+    intros R Hd Hbad Hx. pose proof (reach_good e R) as G.
+    pose proof (g_deps e G x Hx d Hd) as Hok.
+    destruct Hbad as [Hn|[efd [er [Hin Hr]]]].
+    - apply Hn. now apply (ok_ran e G).
+    - apply (g_ok e G) in Hok. destruct Hok as [ef' [Hin' Hr']].
+      rewrite (log_entry_unique e d efd ef' G Hin Hin') in Hr. congruence.
+  Qed.
+
+  (* a task without predicate that ran has called its function, once *)
+  Lemma no_pred_calls st k : kpred (taskof f k) = None ->
+    je_calls (job_sem st (FT k)) = [(false, k, map (slot st) (kins (taskof f k)))].
+  Proof.
+    intros Hp. unfold FlowOpModel.job_sem. rewrite Hp. cbn [andb].
+    destruct (sc_task sc k); try destruct (kfallback (taskof f k)); reflexivity.
+  Qed.
+
+  Theorem complete_all_called e : reach e -> complete f e = true ->
+    forall k, k < length (gtasks f) -> kpred (taskof f k) = None ->
+      exists ef, In (FT k, ef) (xlog e) /\ je_res ef = JOk /\ length (je_calls ef) = 1.
+  Proof.
+    intros R C k Hk Hp. pose proof (reach_good e R) as G.
+    unfold complete in C. rewrite forallb_forall in C.
+    assert (Hok : In (FT k) (xok e)) by (apply existsb_fid, C, in_all_jobs_FT; exact Hk).
+    apply (g_ok e G) in Hok. destruct Hok as [ef [Hin Hr]]. exists ef. repeat split; auto.
+    rewrite <- (g_stable e G _ _ Hin). rewrite (no_pred_calls _ k Hp). reflexivity.
+  Qed.
 End Dataflow.
